@@ -23,6 +23,7 @@ META = {
                     "midpoint / twist clauses restricted to relative rotations <= pi-1e-3 (square root / log unique)",
                     "numericalJacobian is exercised on quadratic maps, for which central differences are exact"],
 }
+REQUIRED_REACH = ['general/faser_general.py:mirror', 'general/faser_general.py:tmInterpMidpoint', 'general/faser_general.py:lookAt', 'general/faser_general.py:planeFromThreePoints', 'general/faser_general.py:closeLinearGap', 'general/faser_general.py:closeArcGap', 'general/faser_general.py:IKPath', 'general/faser_general.py:twistToGoal']
 REQUIRED_CLAUSES = ["mirror.local", "mirror.involution", "midpoint.pos", "midpoint.rot", "lookat", "plane", "distance.metric",
                     "arcdistance", "lineargap", "arcgap", "ikpath", "twist2goal", "chainjac", "numjac", "fibo", "unitsphere",
                     "anglemod.scalar", "anglemod.array", "anglemod.six", "anglemod.tm", "anglemod.mr"]
